@@ -15,6 +15,7 @@ step budget + loop-iteration meter; both deterministic).
 
 from checks import common
 from sim import core, device, link, sched
+from sim import wire as W
 from sim.meter import StepMeter
 from sim.observe import exc_origin, run_reader
 from sim.runner import UnitResult
@@ -40,6 +41,8 @@ REAL_VS_STUB = common.REAL_VS_STUB
 QUICK_RUNS = 14000
 O_SLICE_UNITS = 120
 LOOP_BUDGET = 50_000_000
+GIANT_RUN_EVERY = 2003  # one seed in 2003: > 65535 tiny frames of one kind in a row
+GIANT_FRAME_EVERY = 331  # one seed in 331: frames with a length field of 0x8000 ... 0xFFFF
 LONG_RUN_EVERY = 61  # one seed in 61 sends a long homogeneous stretch of stream
 OVERSIZE_EVERY = 47  # one seed in 47 hands parse() an input longer than a U2 length can describe
 EXPECTED_PROBES = {
@@ -85,10 +88,35 @@ def generate(seed: int, tier: str = "quick", index=None) -> dict:
         cfg["protfilter"] = r_cfg.choice((1, 2, 3, 4, 5, 6, 7))
         if cfg["quitonerror"] == 2:
             cfg["quitonerror"] = r_cfg.choice((0, 1))
+    sel = seed if index is None else index
+    if sel % GIANT_RUN_EVERY == GIANT_RUN_EVERY - 1:
+        # more tiny frames of one kind than a 16-bit counter holds, then the head frame
+        frames = common.giant_run_frames(r_dev, pre)[0] + [head]
+        long_style = "giant"
+        cfg["protfilter"] = r_cfg.choice((1, 2, 3, 4, 5, 6, 7))
+        if cfg["quitonerror"] == 2:
+            cfg["quitonerror"] = r_cfg.choice((0, 1))
+    elif sel % GIANT_FRAME_EVERY == GIANT_FRAME_EVERY - 1:
+        # a frame whose length field is at the top of the 16-bit range (the reader asks the stream for 65 537 bytes)
+        nbig = r_cfg.choice((0xFFFF, 0xFFFF, 0xFFFE, 0x8000, 0xFFFD))
+        big = W.ubx_frame(r_cfg.choice((0x02, 0x66)), r_cfg.choice((0x13, 0x77)), device.payload_bytes(r_dev, nbig, "zeros"))
+        head = {"kind": "ubx", "hex": big.hex(), "faults": [], "note": f"variant giant ubx frame payload {nbig}"}
+        frames = rest[:1] + [head] + rest[1:2] + [{"kind": "ubx", "hex": big.hex(), "faults": [], "note": "again"}]
+        long_style = "giant_frame"
+        idx = len(cat)  # not an entry of the catalogue
+        pre.hit("giant_frame_wires")
     spans = sched.spans_of(frames)
     wire_len = spans[-1][1] if spans else 0
     roll = r_sch.random()
     cfg["drive"] = r_sch.choice(("iter", "read"))
+    if r_sch.random() < 0.2:
+        cfg["handler"] = False  # ERR_LOG reports go to the logger
+    if r_sch.random() < 0.08 and not long_style:
+        qd, qnote = device.nmea_quoted_in_rejection(r_dev)
+        frames.insert(r_sch.randrange(len(frames) + 1), {"kind": "nmea", "hex": qd.hex(), "faults": [], "note": qnote})
+        spans = sched.spans_of(frames)
+        wire_len = spans[-1][1]
+        pre.hit("rejection_text_quotes_utf8")
     if roll < 0.38:
         tr = {"kind": "file"}
     elif roll < 0.42:
@@ -115,6 +143,14 @@ def generate(seed: int, tier: str = "quick", index=None) -> dict:
                 s[0] = round(s[0] + 2.0, 6)
         segs.sort(key=lambda s: s[0])
         tr = {"kind": "serial", "segments": segs, "timeout": 1.0, "stress": "short_read"}
+    if long_style in ("giant", "giant_frame"):
+        # half a megabyte through a 1-byte receive buffer shows nothing new: few segments, real-world buffer sizes
+        if r_sch.random() < 0.6:
+            sizes = sched.random_segments(r_sch, wire_len, spans, style="few")
+            tr = {"kind": "socket", "segments": sched.timed_segments(r_sch, sizes, 2.0), "timeout": 2.0, "end": r_sch.choice(("close", "timeout"))}
+            cfg["bufsize"] = r_sch.choice((1024, 4096, 65536))
+        else:
+            tr = {"kind": r_sch.choice(("file", "pipe"))}
     return {"seed": seed, "mode": "reader", "config": cfg, "frames": frames, "transport": tr, "pre_faults": dict(pre), "entry": idx, "long_run": long_style}
 
 
